@@ -1,6 +1,21 @@
 """C09 - call/N, once/1, findall/3, = and \\= agree with their standard definitions."""
 from lib import semcheck, progs, progs_shapes
-from lib.semcheck import model_expr, describe, shrink, IMPORTS
+from lib.semcheck import IMPORTS as _SEM_IMPORTS
+from props import c09_api as API
+
+IMPORTS = list(_SEM_IMPORTS) + ['Unify.RunUnify']
+
+def _api(case):
+    return case.get('kind') == 'api'
+
+def model_expr(case, io=None):
+    return API.model_expr(case, io) if _api(case) else semcheck.model_expr(case, io)
+
+def describe(case):
+    return API.describe(case) if _api(case) else semcheck.describe(case)
+
+def shrink(case):
+    yield from (API.shrink(case) if _api(case) else semcheck.shrink(case))
 
 ID = 'C09'
 THEOREMS = ['C09_compiled_program_computes_reference', 'C09_builtin_extensional', 'C09_call_spec_compound', 'C09_call_spec_atom', 'C09_once_spec', 'C09_findall_spec', 'C09_findall_one_instance_per_answer', 'C09_findall_instances', 'C09_findall_at_most_once', 'C09_findall_bag_after_enumeration', 'C09_findall_is_collect_then_match', 'C09_findall_copies_are_fresh', 'C09_findall_copies_are_disjoint', 'C09_findall_copies_instances', 'C09_eq_spec',
@@ -15,7 +30,10 @@ RULE = ('random programs whose bodies use call/1..N (extra arguments), once/1, f
         'binding-sensitive goals with bags / extra arguments / terms that share the caller\'s variables with the goal, and queries the builtins '
         'themselves through YP.query. Non-trivial: a builtin is called with a goal that arrives through a variable or has extra arguments or has no '
         'solution, and some query has an answer. Intrinsic oracle: the program with every builtin call replaced by its standard '
-        'definition (findall(T,G,B) => findall(T,G,L), L = B; X \\= Y => \\+ X = Y; inline once(G) => (G -> true); inline call(G,A..) => the goal) gives the same answers.')
+        'definition (findall(T,G,B) => findall(T,G,L), L = B; X \\= Y => \\+ X = Y; inline once(G) => (G -> true); inline call(G,A..) => the goal) gives the same answers. '
+        "Round 4, family 'api' (props/c09_api.py): = and \\= on API-built terms (None, bools, floats, bytes, tuples ... of lib/pyconsts.py) asked directly through YP.query, through call/N, a goal "
+        'variable, once/1, findall/3 and in a compiled program fed by a registered Python predicate; \\= must be the failure of = in every form (oracle), outcome also from a reference unifier '
+        '(constants by ==) and the Coq unification model.')
 TRUSTED_BASE = []
 
 N_FIRST = {'quick': 40, 'thorough': 400}
@@ -49,6 +67,8 @@ def compare(case, io, mo):
     """semcheck.compare, query by query; a difference between the two Coq semantics (compiled-code model vs the auxiliary SLD
     reference - the implementation has already been found equal to the compiled-code model at that point) is not reported for a
     query in which findall/3 collected an instance that contains an unbound variable of the caller (lib/findall_diag.py)"""
+    if _api(case):
+        return API.compare(case, io, mo)
     if not (isinstance(io, dict) and 'queries' in io and isinstance(mo, list) and not (mo and mo[0] == 'front-rejects')):
         return semcheck.compare(case, io, mo)
     idx = semcheck.compared_queries(case, io)
@@ -92,6 +112,8 @@ def gen(rng, tier):
     # findall/3 whose bag is already (partly) instantiated and shares variables with the goal / the instances
     for _ in range(N_BAG[tier]):
         cases.append(progs_shapes.gen_findall_bag_program(rng))
+    # round 4: = and \\= (direct, through call/once/findall, in a program fed by a Python predicate) on API-built constants
+    cases.extend(API.gen(rng, tier))
     return cases
 
 def builtin_corpus():
@@ -133,6 +155,8 @@ def builtin_corpus():
     return L
 
 def nontrivial(case, io):
+    if _api(case):
+        return API.nontrivial(case, io)
     if not isinstance(io, dict) or 'queries' not in io or not any(q['count'] >= 1 for q in io['queries']):
         return False
     cs = set()
@@ -151,7 +175,12 @@ def _bags(b, acc):
         acc[k] = acc.get(k, 0) + 1
 
 def distribution(cases, obs):
+    api = [i for i, c in enumerate(cases) if _api(c)]
+    n_api = len(api)
+    keep = [i for i, c in enumerate(cases) if not _api(c)]
+    cases, obs = [cases[i] for i in keep], [obs[i] for i in keep]
     d = semcheck.stats(cases, obs)
+    d['cases_api_constants_family'] = n_api
     d['cases_meta_shared_family'] = sum(1 for c in cases if c.get('origin') == 'meta-shared')
     bags = {}
     for c in cases:
@@ -215,6 +244,8 @@ def twin(case):
     return {'clauses': cl, 'queries': case['queries']}
 
 def impl(case):
+    if _api(case):
+        return API.impl(case)
     io = semcheck.impl(case)
     if isinstance(io, dict) and 'queries' in io and 'findall' in semcheck.source_of(case):
         # see lib/findall_diag.py: does some collected instance contain an unbound variable of the caller?
@@ -234,6 +265,8 @@ def impl(case):
     return io
 
 def oracle(case, io):
+    if _api(case):
+        return API.oracle(case, io)
     r = semcheck.oracle(case, io)
     if r or not isinstance(io, dict) or 'twin' not in io:
         return r
